@@ -39,6 +39,9 @@ pub fn run(rng: &mut Rng, n: usize, outdir: &std::path::Path, flavour: &str) {
         let mut lines: Vec<String> = Vec::new();
         let mut boards: Vec<String> = Vec::new();
         let mut cur = Board::default();
+        // the last position command of this script (start, text of the start, moves): a GUI sends the same game again with more
+        // moves — also right after ucinewgame
+        let mut last_pos: Option<(Board, String, Vec<Move>)> = None;
         let ncmd = 2 + rng.below(10);
         for _ in 0..ncmd {
             match rng.below(if flavour == "handshake" { 6 } else { 10 }) {
@@ -50,6 +53,26 @@ pub fn run(rng: &mut Rng, n: usize, outdir: &std::path::Path, flavour: &str) {
                 5 => lines.push(junk(rng)),
                 6 | 7 => {
                     // a position command: startpos or FEN, with a legal game; keep the trees small for the depth-limited go
+                    if let Some((ls, ltxt, lm)) = last_pos.clone() {
+                        if rng.chance(1, 3) {
+                            // the previous game again, one to three plies longer
+                            let mut b = ls;
+                            for m in &lm { b.make_move(m); }
+                            let mut played = lm.clone();
+                            for _ in 0..(1 + rng.below(3)) {
+                                let ms = g.mg.generate_moves(&b);
+                                if ms.is_empty() { break; }
+                                let m = *rng.pick(&ms);
+                                played.push(m); b.make_move(&m);
+                            }
+                            let mut line = ltxt.clone();
+                            if !played.is_empty() { line += " moves"; for m in &played { line += " "; line += &uci_text(m); } }
+                            lines.push(line);
+                            cur = b;
+                            last_pos = Some((ls, ltxt, played));
+                            continue;
+                        }
+                    }
                     let use_startpos = rng.chance(1, 2);
                     let start = if use_startpos { Board::default() } else {
                         let mut b = loop { if let Some(b) = crate::csearch::small_position(&g, rng) { break b; } };
@@ -84,9 +107,11 @@ pub fn run(rng: &mut Rng, n: usize, outdir: &std::path::Path, flavour: &str) {
                         b.make_move(&m);
                     }
                     let mut line = if start.bb_all() == Board::default().bb_all() && use_startpos { "position startpos".to_string() } else { format!("position fen {}", fen_of(&start)) };
+                    let head = line.clone();
                     if !played.is_empty() { line += " moves"; for m in &played { line += " "; line += &uci_text(m); } }
                     lines.push(line);
                     cur = b;
+                    if played.len() < 40 { last_pos = Some((start, head, played.clone())); }
                 }
                 _ => {
                     // go: depth-limited (deterministic) or with a time budget (only the flavour "timed" uses those)
